@@ -535,6 +535,95 @@ MUTANTS = [
       "        si_uploads = self._uploads.setdefault(storage_index, StorageIndexUploads())\n",
       "        si_uploads = self._uploads.get(storage_index) or StorageIndexUploads()\n"
       "        self._uploads[storage_index] = si_uploads\n", None),
+    # ---- C31.14 every successful path of a handler reaches the direct operation's StorageServer entry point with the secrets
+    M("server-rtw-read-only-fast-path", S,                  # seeded C31-G: empty test-write-vectors served from slot_readv
+      "        secrets = (\n            authorization[Secrets.WRITE_ENABLER],\n",
+      "        read_vector = [(d[\"offset\"], d[\"size\"]) for d in rtw_request[\"read-vector\"]]\n"
+      "        if not rtw_request[\"test-write-vectors\"]:\n"
+      "            read_data = self._storage_server.slot_readv(storage_index, [], read_vector)\n"
+      "            return await self._send_encoded(\n                request, {\"success\": True, \"data\": read_data}\n            )\n\n"
+      "        secrets = (\n            authorization[Secrets.WRITE_ENABLER],\n", "C31.14"),
+    M("server-rtw-no-writes-served-by-read-path", S,        # same effect, other shape: only requests that write go the checked way
+      "        try:\n            success, read_data = self._storage_server.slot_testv_and_readv_and_writev(\n",
+      "        writes = any(v[\"write\"] or v[\"new-length\"] is not None for v in rtw_request[\"test-write-vectors\"].values())\n"
+      "        if not writes and not any(v[\"test\"] for v in rtw_request[\"test-write-vectors\"].values()):\n"
+      "            shares = list(rtw_request[\"test-write-vectors\"])\n"
+      "            return await self._send_encoded(request, {\"success\": True, \"data\": self._storage_server.slot_readv(\n"
+      "                storage_index, shares, [(d[\"offset\"], d[\"size\"]) for d in rtw_request[\"read-vector\"]])})\n"
+      "        try:\n            success, read_data = self._storage_server.slot_testv_and_readv_and_writev(\n", "C31.14"),
+    M("server-rtw-bad-enabler-falls-back-to-read", S,
+      "        except BadWriteEnablerError:\n            raise _HTTPError(http.UNAUTHORIZED)",
+      "        except BadWriteEnablerError:\n            if rtw_request[\"test-write-vectors\"]:\n"
+      "                raise _HTTPError(http.UNAUTHORIZED)\n"
+      "            success, read_data = True, self._storage_server.slot_readv(\n"
+      "                storage_index, [], [(d[\"offset\"], d[\"size\"]) for d in rtw_request[\"read-vector\"]])",
+      ["C31.14", "C31.10"]),
+    M("server-allocate-all-present-fast-path", S,            # sibling handler: existing shares answered without allocate_buckets
+      "        already_got, sharenum_to_bucket = self._storage_server.allocate_buckets(\n",
+      "        present = set(self._storage_server.get_buckets(storage_index))\n"
+      "        if set(info[\"share-numbers\"]) <= present:\n"
+      "            return await self._send_encoded(request, {\"already-have\": present, \"allocated\": set()})\n"
+      "        already_got, sharenum_to_bucket = self._storage_server.allocate_buckets(\n", "C31.14"),
+    M("server-rtw-enabler-taken-from-renew-secret", S,
+      "        secrets = (\n            authorization[Secrets.WRITE_ENABLER],\n            authorization[Secrets.LEASE_RENEW],\n",
+      "        secrets = (\n            authorization[Secrets.LEASE_RENEW],\n            authorization[Secrets.LEASE_RENEW],\n", "C31.14"),
+    M("benign-server-rtw-read-vector-hoisted", S,
+      "        secrets = (\n            authorization[Secrets.WRITE_ENABLER],\n",
+      "        read_vector = [(d[\"offset\"], d[\"size\"]) for d in rtw_request[\"read-vector\"]]\n"
+      "        secrets = (\n            authorization[Secrets.WRITE_ENABLER],\n", None,
+      edits=[(S, "                [(d[\"offset\"], d[\"size\"]) for d in rtw_request[\"read-vector\"]],\n            )\n        except BadWriteEnablerError:",
+              "                read_vector,\n            )\n        except BadWriteEnablerError:")]),
+    M("benign-server-rtw-secrets-inline-keyword", S,
+      "                [(d[\"offset\"], d[\"size\"]) for d in rtw_request[\"read-vector\"]],\n            )\n        except BadWriteEnablerError:",
+      "                read_vector=[(d[\"offset\"], d[\"size\"]) for d in rtw_request[\"read-vector\"]],\n            )\n        except BadWriteEnablerError:",
+      None,
+      edits=[(S, "                storage_index,\n                secrets,\n                {\n                    k: (",
+              "                storage_index,\n                secrets=(authorization[Secrets.WRITE_ENABLER], authorization[Secrets.LEASE_RENEW],\n"
+              "                         authorization[Secrets.LEASE_CANCEL]),\n                test_and_write_vectors={\n                    k: (")]),
+    M("benign-server-allocate-positional-secrets", S,
+      "            storage_index,\n            renew_secret=authorization[Secrets.LEASE_RENEW],\n            cancel_secret=authorization[Secrets.LEASE_CANCEL],\n",
+      "            storage_index,\n            authorization[Secrets.LEASE_RENEW],\n            authorization[Secrets.LEASE_CANCEL],\n", None),
+    M("benign-server-rtw-empty-request-rejected", S,          # an added error answer is not a successful path
+      "        secrets = (\n            authorization[Secrets.WRITE_ENABLER],\n",
+      "        if len(rtw_request[\"read-vector\"]) > 2**20:\n            request.setResponseCode(http.REQUEST_ENTITY_TOO_LARGE)\n"
+      "            return b\"\"\n"
+      "        secrets = (\n            authorization[Secrets.WRITE_ENABLER],\n", None),
+    M("server-rtw-backend-call-in-helper-undecided", S,        # moved into a helper method: not guessed
+      "            success, read_data = self._storage_server.slot_testv_and_readv_and_writev(\n",
+      "            success, read_data = self._rtw(\n", "ANALYSIS-ERROR",
+      edits=[(S, "    @_authorized_route(\n        _app,\n        set(),\n"
+              "        \"/storage/v1/mutable/<storage_index:storage_index>/<int(signed=False):share_number>\",\n"
+              "        methods=[\"GET\"],\n    )\n    def read_mutable_chunk(",
+              "    def _rtw(self, storage_index, secrets, twv, rv):\n"
+              "        return self._storage_server.slot_testv_and_readv_and_writev(storage_index, secrets, twv, rv)\n\n"
+              "    @_authorized_route(\n        _app,\n        set(),\n"
+              "        \"/storage/v1/mutable/<storage_index:storage_index>/<int(signed=False):share_number>\",\n"
+              "        methods=[\"GET\"],\n    )\n    def read_mutable_chunk(")]),
+    M("vanish-foolscap-remote-rtw", SV, "    def remote_slot_testv_and_readv_and_writev(", "    def remote_slot_testv_and_readv_and_writev_(",
+      "ANALYSIS-ERROR"),
+    # ---- C31.15 the adapter sends its secrets on every path that returns
+    M("adapter-rtw-read-only-fast-path", A,
+      "        mutable_client = StorageClientMutables(self._http_client)\n        we_secret, lr_secret, lc_secret = secrets\n",
+      "        mutable_client = StorageClientMutables(self._http_client)\n        if not tw_vectors:\n"
+      "            reads = yield self.slot_readv(storage_index, [], r_vector)\n            return (True, reads)\n"
+      "        we_secret, lr_secret, lc_secret = secrets\n", "C31.15"),
+    M("adapter-allocate-nothing-requested-fast-path", A,
+      "        upload_secret = urandom(20)\n        immutable_client = StorageClientImmutables(self._http_client)\n",
+      "        if not sharenums:\n            return (set(), {})\n"
+      "        upload_secret = urandom(20)\n        immutable_client = StorageClientImmutables(self._http_client)\n", "C31.15"),
+    M("adapter-add-lease-only-when-shares-listed", A,
+      "        client = StorageClientGeneral(self._http_client)\n        try:\n            await client.add_or_renew_lease(\n",
+      "        client = StorageClientGeneral(self._http_client)\n"
+      "        if not await StorageClientImmutables(self._http_client).list_shares(storage_index):\n            return\n"
+      "        try:\n            await client.add_or_renew_lease(\n", "C31.15"),
+    M("benign-adapter-add-lease-client-renamed", A,
+      "        client = StorageClientGeneral(self._http_client)\n        try:\n            await client.add_or_renew_lease(\n",
+      "        general = StorageClientGeneral(self._http_client)\n        try:\n            await general.add_or_renew_lease(\n", None),
+    M("benign-adapter-allocate-create-awaited-at-once", A,
+      "        result = immutable_client.create(\n            storage_index, sharenums, allocated_size, upload_secret, renew_secret,\n"
+      "            cancel_secret\n        )\n        result = yield result\n",
+      "        result = yield immutable_client.create(\n            storage_index, sharenums, allocated_size, upload_secret, renew_secret,\n"
+      "            cancel_secret\n        )\n", None),
     M("vanish-remove-write-bucket", S, "    def remove_write_bucket(", "    def remove_write_bucket_(", "ANALYSIS-ERROR",
       edits=[(S, "            self._uploads.remove_write_bucket\n", "            self._uploads.remove_write_bucket_\n")]),
     M("vanish-sharefile-get-length", I, "    def get_length(self):\n        \"\"\"\n        Return the length of the data in the share, if we're reading.",
